@@ -18,6 +18,9 @@ def dirichlet_cases(tier, seed):
         dn = C.nxt(0.1, ty, -1)
         vecs = [[1.0, 2.0, 3.0], [0.1, 0.1], [0.05, 0.02, 0.1], [up, 0.05], [dn, 0.05], [0.1, up], [lo, lo], [lo, hi], [hi, hi, hi], [0.5] * 8, [lo] * 5, [0.1] * 64,
                 [1.0] * 64, [0.3, 0.2, 0.5, 1.0, 2.0, 7.0], [0.09, 0.08, 0.07, 0.06], [5.0, 0.5], [hi, 1.0, lo], [2.0, 0.11, 0.5], [0.2, 0.2, 0.2]]
+        # the component samplers' own switch (Gamma shape = 1: Exp / Marsaglia-Tsang / boosted small-shape) from both sides
+        one_up, one_dn = C.nxt(1.0, ty, 1), C.nxt(1.0, ty, -1)
+        vecs += [[one_up, 2.0], [one_dn, 0.5], [1.002, 60.0], [1.004] * 3, [1.0001, 1.0001], [0.999, 0.999, 3.0], [1.01, 0.5], [1.02, 1.0, 0.98, 30.0]]
         for _ in range(60 if th else 6):
             n = 2 + rnd.below(24 if not th else 63)
             kind = rnd.below(3)
